@@ -202,6 +202,45 @@ def one_config(rng, env, nops, with_sync):
     return decl, fk.events, d.log
 
 
+def inherited_percpu_config(env, order):
+    """a per-CPU map declared in a base class and extended in a subclass; instances of both classes exist, created in
+    either order, and each reads its map (a seeding agent noticed that the map descriptor, shared by all instances,
+    carries the size).  -> (decl, events, log) like one_config"""
+    from ebpfcat.bpf import ProgType
+    from ebpfcat.ebpf import EBPF
+    from ebpfcat.arraymap import PerCPUArrayMap
+    fk = fakekernel.FakeKernel(possible=env["possible"], online=env["online"])
+    log = []
+    with fk:
+        pm = PerCPUArrayMap()
+        Base = type("Base", (EBPF,), dict(license="GPL", pm=pm, a=pm.globalVar("I")))
+        Sub = type("Sub", (Base,), dict(b=pm.globalVar("Q"), c=pm.globalVar("Q"), d=pm.globalVar("I")))
+        insts = {}
+        for name in order:
+            try:
+                fk.label = dict(op="init", cls=name)
+                insts[name] = p = (Base if name == "base" else Sub)(ProgType.XDP, "GPL")
+                fk.label = dict(op="load", cls=name)
+                p.load()
+                p.loaded = True
+                log.append((f"init {name}", "ok"))
+            except Exception as e:               # noqa: a case result
+                log.append((f"init {name}", type(e).__name__))
+        for name in ("sub", "base", "sub"):
+            if name in insts:
+                try:
+                    fk.label = dict(op="percpu-read", cls=name)
+                    insts[name].pm.read()
+                    _ = [insts[name].a[i] for i in range(len(insts[name].a))]
+                    log.append((f"read {name}", "ok"))
+                except Exception as e:           # noqa
+                    log.append((f"read {name}", type(e).__name__))
+        fk.label = None
+    decl = dict(arrays=[dict(name="pm", percpu=True, vars=[dict(name="a", fmt="I")], inherited=True, order=list(order))],
+                hash=None, dicts=[])
+    return decl, fk.events, log
+
+
 def run(ctx):
     wd = ctx.workdir()
     # 1. the design: obligation <=> kernel model stays inside the buffers
@@ -237,12 +276,18 @@ CHECK_DEADLOCK FALSE
         runs.append((rng, envs[i % len(envs)], i))
     for i in range(nconf // 4):
         runs.append((random.Random(ctx.rng.random()), envs[ctx.rng.randrange(len(envs))], f"r{i}"))
+    for j, env in enumerate(envs):
+        for order in (("sub", "base"), ("base", "sub")):
+            runs.append((None, env, f"inherit-{j}-{order[0]}"))
     traces, meta = [], []
     for rng, env, ident in runs:
         env = dict(env)
         if env["online"] is None:
             env["online_seen"] = os.cpu_count()
-        decl, events, log = one_config(rng, env, nops, with_sync=rng.random() < 0.3)
+        if rng is None:
+            decl, events, log = inherited_percpu_config(env, ("sub", "base") if ident.endswith("sub") else ("base", "sub"))
+        else:
+            decl, events, log = one_config(rng, env, nops, with_sync=rng.random() < 0.3)
         for e in events:
             for f in ("keybuf", "valbuf", "nextbuf"):
                 if e[f] < 0:
